@@ -6,7 +6,10 @@
 // The case space (see cases.go) is a deviation-bounded neighbourhood of valid
 // encodings: every seed with exactly one mutation at every position, every
 // header field overwritten as a unit, every parameter key with every value of
-// a type/magnitude menu (pairs for Flate/LZW/CCITT), bombs, and filter chains.
+// a type/magnitude menu (pairs for Flate/LZW/CCITT), bombs, and filter chains;
+// plus (chain3.go, lzwstate.go) every chain of three filters with layered
+// bodies / bombs / last-layer parameters, and LZW bodies that drive the code
+// table to every width boundary and to the full state followed by every short tail.
 // Every case is executed in a single-threaded worker process (engine/procs)
 // because the oracles read process-global counters.
 package c08
@@ -17,6 +20,7 @@ import (
 	"os"
 	"regexp"
 	"runtime"
+	"strconv"
 	"strings"
 	"time"
 
@@ -175,9 +179,16 @@ func judge(x *xcase, o *obs) []failure {
 	if o.stalled {
 		fs = append(fs, failure{"read-no-progress:" + outer(names), "Read returned (0, nil) more than 1000 times in a row"})
 	}
-	if allow := allocAllowance(x, o.produced); int64(o.alloc) > allow {
+	// allocation: the cumulative figure is an upper bound of what was ever held;
+	// only if it exceeds the allowance the case is re-run with the peak of the
+	// live heap measured (runCase), and that figure decides
+	if allow := allocAllowance(x, o.produced); int64(o.alloc) > allow && (!o.liveMeasured || int64(o.livePeak) > allow) {
+		what := fmt.Sprintf("TotalAlloc grew by %d bytes", o.alloc)
+		if o.liveMeasured {
+			what += fmt.Sprintf(" and the live heap by %d bytes at its peak (%d collections at GOGC=10)", o.livePeak, o.liveCycles)
+		}
 		fs = append(fs, failure{"alloc-exceeds-budget:" + cc,
-			fmt.Sprintf("TotalAlloc grew by %d bytes; allowance 16 MiB + 2*StreamBudget(raw lengths) + 4*%d produced = %d (raw length %d)", o.alloc, o.produced, allow, len(x.body))})
+			fmt.Sprintf("%s; allowance 16 MiB + 2*StreamBudget(raw lengths) + 4*%d produced = %d (raw length %d)", what, o.produced, allow, len(x.body))})
 	}
 	if gc, why := geometryCap(x, names); gc >= 0 && o.produced > gc {
 		kind := outer(names)
@@ -260,6 +271,12 @@ func (ws *workerState) runCase(x *xcase, confirm bool) (obs, []failure) {
 		return o, judge(x, &o)
 	}
 	o.leaked, o.leakSig = ws.gt.settle()
+	if int64(o.alloc) > allocAllowance(x, o.produced) {
+		o.livePeak, o.liveCycles = x.peakLive()
+		o.liveMeasured = true
+		ws.gt.settle()
+		ws.gt.rebase()
+	}
 	return o, judge(x, &o)
 }
 
@@ -286,15 +303,29 @@ func Worker(args []string) int {
 		ws.gt = newGTracker()
 	}, func(w *procs.W, idx int) {
 		x := ws.t.get(idx)
+		t0 := time.Now()
 		o, fails := ws.runCase(x, true)
+		if d := time.Since(t0); d > time.Second { // information only (machine load shows here), never an oracle
+			w.Count("cases_slower_than_1s", 1)
+			if d > 5*time.Second {
+				w.Count("cases_slower_than_5s", 1)
+				w.Count("cases_slower_than_5s_"+x.space, 1)
+			}
+		}
 		w.Eval(1)
 		w.Count("cases_"+x.space, 1)
 		w.Count("bytes_produced", o.produced)
 		w.Outcome(outcomeOf(x, &o))
+		if o.liveMeasured {
+			w.Count("alloc_second_stage", 1)
+			if int64(o.livePeak) <= allocAllowance(x, o.produced) {
+				w.Outcome(x.space + ":alloc-cumulative-above-allowance-live-peak-within")
+			}
+		}
 		if !x.plain {
 			w.Distinct(procs.HashS(fmt.Sprintf("%s|%s|%s|%v|%x|%d", x.via, x.mode, x.space, x.dict, x.body, len(x.objs))) ^ objsHash(x))
 		}
-		if w.WantSample() && idx%997 == 3 {
+		if w.WantSample() && idx%997 == 3 && len(x.body) <= 4096 {
 			w.Sample(x.toCase())
 		}
 		for _, f := range fails {
@@ -326,6 +357,9 @@ func incidentFingerprint(in *procs.Incident, x *xcase) string {
 	names := filterNames(x.dict, x.objs)
 	switch in.Kind {
 	case "hang":
+		if x.tag != "" {
+			return "hang:" + chainClass(names) + ":" + x.tag
+		}
 		return "hang:" + chainClass(names)
 	case "oom":
 		return "out-of-memory:" + chainClass(names)
@@ -360,14 +394,20 @@ func Run(tier string) int {
 	if tier == "thorough" {
 		budget = 24 * time.Minute
 	}
+	if v, err := strconv.Atoi(os.Getenv("VERIF_BUDGET_S")); err == nil && v > 0 {
+		budget = time.Duration(v) * time.Second // ev.New lifts its own deadline the same way; the workers' deadline below follows
+	}
 	r := ev.New("C08", tier, "exploration", budget)
 	r.Rule("a case is (stream dictionary with /Filter and /DecodeParms, raw body, objects reachable through the Getter, entry point DecodeStream or MakeFilter+Decode, consumption mode drain/read one byte/close at once); " +
 		"cases are enumerated as: every seed unmutated; every seed with exactly ONE mutation at every position (byte menu, truncation, insertion; header fields as units; width x height pairs); bombs; every parameter key x value menu (pairs for Flate/LZW/CCITT); " +
-		"every /Filter x /DecodeParms shape; every filter sequence of length <= 2 and repeated filters of length 3, 8, 9, each with unmutated and single-mutation bodies. " +
+		"every /Filter x /DecodeParms shape; every filter sequence of length <= 2 and repeated filters of length 3, 8, 9, each with unmutated and single-mutation bodies; " +
+		"every filter sequence of length 3 with bodies valid for 3 / 2 / 1 leading layers, with bombs encoded once per amplifying layer, and with the parameter menu on the last layer; " +
+		"LZW table-state bodies written by the harness's own code emitter: clear-table code + N filler codes (N around every code-width boundary and around the full table, both EarlyChange values) + every short tail over {top code, top-1, clear, EOD, literal}. " +
 		"distinct = distinct (entry point, mode, dictionary, body, object) tuples that differ from an unmutated seed")
 	r.Assume(
 		"deviation bound 1: at most one mutation per case (two coupled fields for width x height claims, two keys for parameter pairs)",
-		"allocation is measured as TotalAlloc growth of a GOMAXPROCS=1 process over the whole decode (cumulative, so an upper bound of live memory); allowance 16 MiB + 2*StreamBudget(raw lengths) + 4*bytes produced",
+		"allocation is measured as TotalAlloc growth of a GOMAXPROCS=1 process over the whole decode (cumulative, so an upper bound of live memory); allowance 16 MiB + 2*StreamBudget(raw lengths) + 4*bytes produced; "+
+			"a case above the allowance is re-run with GOGC=10 and the peak growth of the live heap (/gc/heap/live:bytes after every collection, forced collections after construction and before Close) is compared with the same allowance: geometric buffer growth inside the budget allocates ~5x the buffer in total without ever holding it",
 		"the harness stops reading after 64 MiB (272 MiB for CCITT/JBIG2/DCT as outermost filter); stopping there is not an error of the library",
 		"geometry of a mutated JPEG / JBIG2 body is read by the harness's own marker / segment walker; when it does not find exactly one frame / page header only limits.MaxImageBytes is demanded",
 		"hang = one case running longer than 20 s in a worker, reproduced 5x in isolated processes; crash/OOM (ulimit -v 6 GiB) likewise",
@@ -444,6 +484,10 @@ func Run(tier string) int {
 				r.Flaky(fmt.Sprintf("case %d (%s): %s", in.Index, x.desc, in.Describe()))
 			}
 		}
+		if res.Complete && int(res.Cases)+len(res.Incidents) < t.total {
+			// e.g. the worker binary was replaced by an older build while the run started
+			r.Infra(fmt.Sprintf("the workers executed %d of %d cases although no worker reported a problem (stale worker binary?)", res.Cases, t.total))
+		}
 		if !res.Complete {
 			if res.Expired {
 				r.Expired()
@@ -480,6 +524,9 @@ func selfTest(t *table) string {
 				return fmt.Sprintf("JBIG2 walker finds no page information in seed %s", s.name)
 			}
 		}
+	}
+	if msg := lzwEmitterSelfTest(); msg != "" {
+		return msg
 	}
 	// the case <-> JSON round trip must preserve the case
 	for _, idx := range []int{0, t.total / 3, t.total / 2, t.total - 1} {
@@ -527,6 +574,9 @@ func Replay(path string) int {
 	r.Eval(1)
 	r.Outcome(outcomeOf(x, &o))
 	fmt.Printf("replay: %s\n  produced=%d alloc=%d err=%v closeErr=%v leaked=%d %s\n", x.desc, o.produced, o.alloc, o.err, o.closeErr, o.leaked, o.leakSig)
+	if o.liveMeasured {
+		fmt.Printf("  second stage: live heap peak +%d bytes (%d collections), allowance %d\n", o.livePeak, o.liveCycles, allocAllowance(x, o.produced))
+	}
 	for _, f := range fails {
 		r.Violation(f.fp, f.what+" — "+x.desc, c)
 	}
